@@ -15,7 +15,8 @@ def run(cmd, cwd=None, env=None):
 
 
 def check_patch(diff_path, with_tests=True):
-    wt = '/tmp/benignchk/%d' % os.getpid()
+    import threading
+    wt = '/tmp/benignchk/%d-%d' % (os.getpid(), threading.get_ident())
     shutil.rmtree(wt, ignore_errors=True)
     os.makedirs(wt)
     shutil.copytree('/repo/glom', wt + '/glom', ignore=shutil.ignore_patterns('__pycache__'))
@@ -49,8 +50,11 @@ def main():
     os.makedirs('/tmp/benignchk', exist_ok=True)
     if args and args[0] == '--sweep':
         n = bad = 0
-        for d in sorted(glob.glob(KEEP + '/*')):
-            r = check_patch(d + '/patch.diff', with_tests=False)
+        from concurrent.futures import ThreadPoolExecutor
+        dirs = sorted(glob.glob(KEEP + '/*'))
+        with ThreadPoolExecutor(8) as ex:
+            results = list(ex.map(lambda d: check_patch(d + '/patch.diff', with_tests=False), dirs))
+        for d, r in zip(dirs, results):
             n += 1
             meta = json.load(open(d + '/meta.json'))
             meta.update({'alarms': r.get('alarms'), 'alarm_reports': r.get('alarm_reports'), 'applies': r['applies']})
